@@ -16,6 +16,9 @@
     not caught (the exception propagates);
   * `process_resource_event` carries the remaining fns into the next cycle's patch EXCEPT the
     framework's own finalizer edits (`_is_finalizer_fn`), `_daemon/_timer` carry all of them;
+  * commit 608a57d made `process_resource_event` forget the carried fns at the head of the next cycle when they
+    yield no JSON-patch operation on that cycle's body (`settled`, `cycleForgetting`); that lost effects and was
+    taken back by the rework that followed (findings C08-F4, C08-F5): kept as a named variant for regression theorems;
   * requests are addressed by namespace/name only: the server serves whatever object is stored under
     the name at that moment (`Server.obj`), whatever its uid.
 
@@ -406,8 +409,31 @@ def recalled (prev : Option Nat) (orig : Obj) (mem : Option (List Fn)) : Option 
   | none => mem
   | some u => if u = orig.uid then mem else none
 
-/-- `process_resource_event` -/
+/-- `not patch.as_json_patch(body)` for a patch of fns only (`Patch(memory.remaining_patch, body=body)`): one
+    application of the fns to the body yields no JSON-patch operation — neither on the finalizers nor on the
+    status, the only places the model's fns write to. -/
+def noOps (fns : List Fn) (body : Obj) : Bool :=
+  !(finsChanged body (applyFns fns body)) && !(statusChanged body (applyFns fns body))
+
+/-- 608a57d (taken back since), the head of `process_resource_event`:
+    `if memory.remaining_patch is not None and not patch.as_json_patch(body): memory.remaining_patch = None;
+    patch = Patch(body=body)` — carried fns that yield no operation on the body of the new cycle are fulfilled
+    already (e.g. by the change they conflicted with) and are forgotten BEFORE the cycle: the cycle proceeds as
+    a normal one (its patch starts empty, the handlers are not skipped). -/
+def settled (mem : Option (List Fn)) (body : Obj) : Option (List Fn) :=
+  match mem with
+  | none => none
+  | some l => if noOps l body then none else some l
+
+/-- `process_resource_event`: the cycle's patch always starts from the memory (`Patch(memory.remaining_patch,
+    body=body)`), fulfilled or not; the patching evaluates the fns on the freshest body it has. -/
 def cycle := cycleOf false
+/-- The variant of commit 608a57d (in /repo for a few hours, taken back by the rework that followed it; kept for
+    the regression theorems): what `settled` leaves opens the cycle's patch; an exception leaves the memory as
+    `settled` made it. -/
+def cycleForgetting (sub : Bool) (mem : Option (List Fn)) (fields : Kvs) (fns : List Fn) (orig : Obj)
+    (env : Env) (s : Server) : Result × Option (List Fn) :=
+  cycleOf false sub (settled mem orig) fields fns orig env s
 /-- `_daemon` / `_timer` -/
 def daemonCycle := cycleOf true
 
